@@ -32,11 +32,16 @@ MANIFEST = dict(
                 "(C02_no_discard_before_shutdown, C02_stop_only_after_shutdown); the closed direction leaves the other direction's accounting intact "
                 "(C02_half_close); a handler with ok=False has shut its socket (C02_dead_handler_shut), a dropped handler "
                 "left no socket un-shut (C02_dropped_handler_shut), and - with no hypothesis on the schedule - ok=False "
-                "means all four shut flags set, buffers empty and the id unregistered, i.e. reusable (C02_finished_frees_id). "
+                "means all four shut flags set, buffers empty and the id unregistered, i.e. reusable (C02_finished_frees_id); "
+                "no reachable quiet state is stuck: when nothing is pending (queues drained, buffers empty, nothing to read, "
+                "every flag propagated - Quiet, proved equivalent to the executable test quietB) every open endpoint has "
+                "received exactly what the tunnel read from its peer, every closed endpoint's close has reached the other "
+                "endpoint's socket, and if both closed both handlers are finished (C02_quiet_complete). "
                 "The model is replayed against the real classes on every run with close-order scenarios; teardown within "
                 "bounded work and absence of stuck states are checked on the real code by the fair-drain oracle."),
     level_note=("Trusted: as C01. Liveness (teardown within bounded work, no stuck state under a fair schedule) is decided on the "
-                "real code by the fair-drain oracle for the generated schedules, not by a theorem."),
+                "real code by the fair-drain oracle for the generated schedules, not by a theorem; that the real loop's quiescent "
+                "states satisfy Quiet is checked on every run (on the real objects and on the model state), not proved."),
     technique="Lean 4 proof (invariants over all schedules) + differential replay + fair-drain oracle on the real classes",
 )
 
@@ -108,6 +113,7 @@ def scenario(ctx, rng, o, kind):
                     tg.oracle_eof_order(ctx, sc, 'C02', 'end')
                     tg.oracle_teardown(ctx, sc, 'C02')
                     tg.oracle_no_pending(ctx, sc, 'C02')
+                    tg.oracle_quiet(ctx, sc, 'C02')
         tg.oracle_alive(ctx, sc, 'C02', 'run')
         return sc.s.ins, sc.s.outs, bool(sc.nontrivial)
     finally:
